@@ -213,3 +213,27 @@ class Feats(Task):
     def run(self, vocab) -> str:
         RUNS.append(self.fullname)
         return f'feats({vocab})'
+
+
+from taskchain import ModuleTask
+
+
+class Emb(ModuleTask):
+    """a ModuleTask whose Meta carries a task_group: release 1.4.0 ignores it, the group is the module name"""
+
+    class Meta:
+        task_group = 'nlp'
+
+    def run(self) -> int:
+        RUNS.append(self.fullname)
+        return 1
+
+
+class UsesEmb(Task):
+    class Meta:
+        input_tasks = [Emb]
+        parameters = [Parameter('w', default=None)]
+
+    def run(self, emb, w) -> int:
+        RUNS.append(self.fullname)
+        return emb
